@@ -244,14 +244,21 @@ func tokenCuts(pool *sb.Pool, src string, tmpl bool) []int {
 var locExprContexts = []struct {
 	Name      string
 	Pre, Post []string
+	Only, Mid string // the context fits one fault only, spelled Mid on the asserted line
 }{
-	{"array-element", []string{"$zzA = [", "1,"}, []string{",", "3,", "];"}},
-	{"call-argument", []string{"var_dump(", "1,"}, []string{");"}},
-	{"concat-operand", []string{"$zzS = 'a' ."}, []string{". 'c';"}},
-	{"ternary-branch", []string{"$zzT = true", "?"}, []string{": 0;"}},
-	{"assignment-rhs", []string{"$zzR ="}, []string{";"}},
+	{"array-element", []string{"$zzA = [", "1,"}, []string{",", "3,", "];"}, "", ""},
+	{"call-argument", []string{"var_dump(", "1,"}, []string{");"}, "", ""},
+	{"concat-operand", []string{"$zzS = 'a' ."}, []string{". 'c';"}, "", ""},
+	{"ternary-branch", []string{"$zzT = true", "?"}, []string{": 0;"}, "", ""},
+	{"assignment-rhs", []string{"$zzR ="}, []string{";"}, "", ""},
 	// second line of a double-quoted string that spans lines (only the method-call fault fits here)
-	{"interpolation-line2", []string{"$zzE = new Exception('x');", "$zzI = \"first"}, []string{"third\";"}},
+	{"interpolation-line2", []string{"$zzE = new Exception('x');", "$zzI = \"first"}, []string{"third\";"}, "undefined-method", "second {$zzE->noSuchMethod()}"},
+	// member chains broken across lines, arrow at the end of the line or at its start: the failing member's line
+	{"trailing-arrow", []string{"$zzE = new Exception('x');", "$zzC = $zzE->"}, []string{";"}, "undefined-method", "noSuchMethod()"},
+	{"leading-arrow", []string{"$zzE = new Exception('x');", "$zzC = $zzE"}, []string{";"}, "undefined-method", "->noSuchMethod()"},
+	{"trailing-arrow-chain", []string{"class ZzChain { function me() { return $this; } }", "$zzC = (new ZzChain())->", "me()->", "me()->"}, []string{"me();"}, "undefined-method", "noSuchMethod()->"},
+	{"leading-arrow-chain", []string{"class ZzChain { function me() { return $this; } }", "$zzC = (new ZzChain())", "->me()", "->me()"}, []string{"->me();"}, "undefined-method", "->noSuchMethod()"},
+	{"trailing-arrow-on-null", []string{"$zzN = null;", "$zzC = $zzN->"}, []string{";"}, "undefined-method", "anyMethod()"},
 }
 
 // the runtime faults as expressions (no trailing semicolon)
@@ -505,15 +512,15 @@ func TestC18(t *testing.T) {
 					if exprDone%cfg.NShards != cfg.Shard {
 						continue
 					}
-					if !cfg.Thorough() && (ci+fi+exprDone/cfg.NShards/24)%4 != 0 && ec.Name != "interpolation-line2" {
+					if ec.Only != "" && ef.Name != ec.Only {
+						continue
+					}
+					if !cfg.Thorough() && (ci+fi+exprDone/cfg.NShards/24)%4 != 0 && ec.Only == "" {
 						continue
 					}
 					mid := ef.Expr
-					if ec.Name == "interpolation-line2" {
-						if ef.Name != "undefined-method" {
-							continue
-						}
-						mid = "second {$zzE->noSuchMethod()}"
+					if ec.Mid != "" {
+						mid = ec.Mid
 					}
 					block := append(append(append([]string{}, ec.Pre...), mid), ec.Post...)
 					nl := append(append(append([]string{}, lines[:at]...), block...), lines[at:]...)
